@@ -62,13 +62,34 @@ pub enum Kind {
     /// a voice whose `self` is an ARRAY: the feed cell holds a handle into the machine's array
     /// storage, not a number (`[p0 + x, p0]` with `p0` read from the previous array)
     ArrSelf,
+    /// a chain of STANDARD-LIBRARY functions (`lib/osc.mmm`, `filter.mmm`, `env.mmm`, imported with
+    /// `use`) with constant parameters,
+    /// wrapped in a function of its own. No hand-written model: its reference is the stream of a
+    /// one-voice program run fault-free on the same backend (it reads neither `now` nor a dsp input,
+    /// so a site started at a swap follows the same stream from its beginning). `n` selects the
+    /// template
+    Lib,
+}
+
+/// `use` lines every program with a `Kind::Lib` voice starts with (none of these names is one of
+/// the generator's own helper functions; `osc::phasor` is called by its qualified name).
+/// (only the cheap modules: a compile with `reverb`, `modulation` or `dynamics` imported takes
+/// 0.3-0.7 s instead of 6 ms; the shipped examples cover those in C06)
+pub const LIB_HEADER: &str = "use osc::{saw,sinwave,rect,tri}\nuse filter::{lowpass,highpass,bandpass,onepole,smooth}\nuse env::adsr\n";
+pub const N_LIB: u32 = 8;
+
+thread_local! {
+    /// reference streams of the `Kind::Lib` voices of the current run, keyed by `Voice::lib_expr`
+    /// (filled by `hotswap::run` before any model is created)
+    pub static LIB_REFS: std::cell::RefCell<std::collections::BTreeMap<String, std::sync::Arc<Vec<f64>>>> =
+        const { std::cell::RefCell::new(std::collections::BTreeMap::new()) };
 }
 
 /// Kinds used for generation. `Kind::Gate` (stateful calls in both arms of an `if`) is NOT in this
 /// list: on the pinned tree the VM underflows its state position on such programs (panic with
 /// overflow checks, heap corruption / abort without) even in a fault-free run. That is a crash of
 /// an accepted program (C03/C05 territory, not claimed here) and would only kill workers.
-pub const ALL_KINDS: [Kind; 31] = [
+pub const ALL_KINDS: [Kind; 33] = [
     Kind::Rand,
     Kind::Rand,
     Kind::ArrSelf,
@@ -100,6 +121,8 @@ pub const ALL_KINDS: [Kind; 31] = [
     Kind::TupCalls,
     Kind::RecCalls,
     Kind::ArgCall,
+    Kind::Lib,
+    Kind::Lib,
 ];
 
 #[derive(Clone, Copy, Debug, PartialEq, Serialize, Deserialize)]
@@ -202,8 +225,27 @@ impl Voice {
             // odd `n`: the state is an array of arrays (the inner arrays are reachable from the
             // state words only through the outer one)
             Kind::ArrSelf => if self.n % 2 == 1 { "matself".into() } else { "arrself".into() },
+            Kind::Lib => format!("lv{}", self.id),
         };
         base
+    }
+    /// The standard-library chain of a `Kind::Lib` voice (also the key of its reference stream).
+    pub fn lib_expr(&self) -> String {
+        let (a, b) = (lit(self.p[0]), lit(self.p[1]));
+        match self.n % N_LIB {
+            0 => format!("osc::phasor({a}, 0.0)"),
+            1 => format!("lowpass(saw({a}, 0.0), {b}, 2.0)"),
+            2 => format!("onepole(rect({a}, 0.0, 0.5), {b})"),
+            3 => format!("highpass(tri({a}, 0.0), {b}, 1.0)"),
+            4 => format!("adsr(0.001, 0.01, 0.7, 0.01, osc::phasor({b}, 0.0) > 0.85) * sinwave({a}, 0.0)"),
+            5 => format!("bandpass(saw({a}, 0.0), {b}, 4.0) + onepole(sinwave({a}, 0.0), 0.9)"),
+            6 => format!("smooth(rect({a}, 0.0, 0.5))"),
+            _ => format!("lowpass(lowpass(saw({a}, 0.0), {b}, 2.0), {b}, 2.0)"),
+        }
+    }
+    /// The one-voice program whose fault-free run is the reference of a `Kind::Lib` voice.
+    pub fn lib_reference_source(&self) -> String {
+        format!("{LIB_HEADER}fn lvref(){{\n  {}\n}}\nfn dsp(){{\n  lvref()\n}}\n", self.lib_expr())
     }
     fn wrapped_name(&self, level: u32) -> String {
         if level == 0 {
@@ -220,7 +262,7 @@ impl Voice {
         let x = self.input.render();
         match self.kind {
             Kind::Counter | Kind::SrPhase | Kind::ArrPhase | Kind::GlobK | Kind::MainCl => vec![lit(self.p[0])],
-            Kind::Duo | Kind::DlySrc | Kind::FeedDly => vec![],
+            Kind::Duo | Kind::DlySrc | Kind::FeedDly | Kind::Lib => vec![],
             Kind::Leaky => vec![x, lit(self.p[0])],
             Kind::Lag2 | Kind::Mfb | Kind::Mmf | Kind::InMem | Kind::Rand | Kind::ArrSelf => vec![x],
             Kind::Echo => vec![x, lit(self.p[0])],
@@ -280,6 +322,7 @@ impl Voice {
         let n = self.n;
         let mut d = match self.kind {
             Kind::Rand => self.rand.as_ref().map(|r| r.defs(self.id)).unwrap_or_default(),
+            Kind::Lib => vec![(self.fn_name(), format!("fn {}(){{\n  {}\n}}", self.fn_name(), self.lib_expr()))],
             Kind::ArrSelf if self.n % 2 == 1 => vec![(
                 "matself".into(),
                 "fn matself(x){\n  let prev = self\n  let p0 = if (mem(1.0) > 0.5) { prev[0][0] } else { 0.0 }\n  [[p0 + x, p0], [0.5]]\n}".into(),
@@ -482,6 +525,8 @@ pub struct Model {
     pub subs: Vec<Model>,
     /// interpreter state of a `Kind::Rand` voice
     pub rstate: Option<crate::randvoice::FnState>,
+    /// reference stream of a `Kind::Lib` voice (`w` is the position in it)
+    pub lib_ref: Option<std::sync::Arc<Vec<f64>>>,
 }
 
 impl Model {
@@ -491,7 +536,7 @@ impl Model {
             Kind::Lag2 | Kind::Mfb | Kind::Pair | Kind::Nest | Kind::CntMem | Kind::Late | Kind::TupCalls | Kind::ArrSelf => 2,
             Kind::ArgCall => 4,
             Kind::Gate | Kind::Wide | Kind::Deep | Kind::Mmf | Kind::LateMem | Kind::RecCalls => 3,
-            Kind::Echo | Kind::Duo | Kind::InDly | Kind::Rand => 0,
+            Kind::Echo | Kind::Duo | Kind::InDly | Kind::Rand | Kind::Lib => 0,
             Kind::EchoMod | Kind::Comb | Kind::DlySrc | Kind::FeedDly => 1,
         };
         let ring = match v.kind {
@@ -504,6 +549,7 @@ impl Model {
             w: 0,
             subs: v.subs.iter().map(Model::zero).collect(),
             rstate: v.rand.as_ref().map(|r| r.zero_state(0)),
+            lib_ref: if v.kind == Kind::Lib { LIB_REFS.with(|m| m.borrow().get(&v.lib_expr()).cloned()) } else { None },
         }
     }
 
@@ -539,6 +585,11 @@ impl Model {
             Kind::Counter => {
                 self.s[0] += p[0];
                 self.s[0]
+            }
+            Kind::Lib => {
+                let y = self.lib_ref.as_ref().and_then(|r| r.get(self.w)).copied().unwrap_or(f64::NAN);
+                self.w += 1;
+                y
             }
             Kind::ArrSelf => {
                 // s0 = the mem(1.0) cell, s1 = element 0 of the previous array
@@ -779,7 +830,21 @@ pub fn gen_voice(rng: &mut Rng, id: u32, kind: Kind, n_in: u32, max_delay: u32) 
             p[1] = *rng.pick(&[0.0, 0.25, 0.5, 0.75]);
         }
         Kind::Lag2 | Kind::Mfb | Kind::Mmf | Kind::InMem | Kind::Rand | Kind::ArrSelf => {}
+        Kind::Lib => {}
     }
+    let (n, p) = if kind == Kind::Lib {
+        let t = rng.below(N_LIB as u64) as u32;
+        let f = *rng.pick(&[110.0, 220.0, 330.0, 1000.0]);
+        let q = match t {
+            1 | 3 | 5 | 7 => *rng.pick(&[400.0, 800.0, 3000.0]),
+            2 => *rng.pick(&[0.5, 0.9, 0.99]),
+            4 => *rng.pick(&[3.0, 300.0]),
+            _ => 0.0,
+        };
+        (t, [f, q, 0.0])
+    } else {
+        (n, p)
+    };
     // On the pinned tree the VM looks up the ring size of EVERY `delay` of a function at index 0 of
     // the function's `delay_sizes` (`delaysizes_pos_stack` is pushed as 0 per call and never
     // advanced): two delays of different lengths in one function run over the state storage
@@ -892,6 +957,6 @@ pub fn tweak_constant(rng: &mut Rng, v: &mut Voice) -> bool {
                 true
             }
         },
-        Kind::EchoMod => false,
+        Kind::EchoMod | Kind::Lib => false,
     }
 }
